@@ -1,45 +1,103 @@
 #!/usr/bin/env python3
-"""Re-run every claimed check against every seeded change in /verif/seeded (patch applied to /repo, reverted
-afterwards) and print which checks report it.  Updates meta.json (detected_by)."""
-import json, os, subprocess, sys, glob
+"""Re-run every claimed check against every seeded change in /verif/seeded and print which checks report it.
+Updates meta.json (detected_by, undecided, rules).
+
+Default: every seed gets a scratch copy of /repo's package directory under /tmp/seedrun/<id> (patch applied
+with `git apply` there, removed afterwards) and `./check <id> --root <copy>`, 16 seeds at a time.
+--in-place: the patch is applied to /repo itself and reverted afterwards (sequential).
+"""
+import json, os, subprocess, sys, glob, shutil
+from concurrent.futures import ThreadPoolExecutor
+
 VERIF = os.path.dirname(os.path.dirname(os.path.abspath(__file__)))
+SCRATCH = "/tmp/seedrun"
+
+
 def sh(cmd, cwd=None):
     p = subprocess.run(cmd, shell=True, cwd=cwd, capture_output=True, text=True)
     return p.returncode, p.stdout + p.stderr
+
+
+def props():
+    man = json.load(open(os.path.join(VERIF, "MANIFEST.json")))
+    return [c["property_id"] for c in man["checks"]]
+
+
+def run_checks(root):
+    det, und, rules = [], [], []
+    for p in props():
+        rcx, o = sh("./check %s --no-evidence --root %s" % (p, root), VERIF)
+        if rcx == 1:
+            det.append(p)
+            rules += [l.strip().split(":")[0] for l in o.splitlines() if l.strip().startswith("%s rule" % p)]
+        elif rcx != 0:
+            und.append(p)
+    return det, und, sorted(set(rules))
+
+
+def one(d, in_place=False):
+    name = os.path.basename(d)
+    diff = os.path.join(d, "patch.diff")
+    if in_place:
+        root = "/repo"
+        rc, out = sh("git -C /repo apply %s" % diff)
+    else:
+        root = os.path.join(SCRATCH, name)
+        shutil.rmtree(root, ignore_errors=True)
+        os.makedirs(root)
+        shutil.copytree("/repo/flumine", os.path.join(root, "flumine"))
+        rc, out = sh("git init -q . && git apply %s" % diff, root)
+    if rc != 0:
+        if not in_place:
+            shutil.rmtree(root, ignore_errors=True)
+        return name, None, out.strip()[:120]
+    try:
+        res = run_checks(root)
+    finally:
+        if in_place:
+            sh("git -C /repo checkout -- .")
+        else:
+            shutil.rmtree(root, ignore_errors=True)
+    det, und, rules = res
+    meta_p = os.path.join(d, "meta.json")
+    meta = json.load(open(meta_p)) if os.path.exists(meta_p) else {}
+    meta["detected_by"], meta["undecided"], meta["rules"] = det, und, rules
+    json.dump(meta, open(meta_p, "w"), indent=1)
+    return name, res, ""
+
+
 def main():
+    in_place = "--in-place" in sys.argv
+    only = [a for a in sys.argv[1:] if not a.startswith("--")]
     rc, out = sh("git -C /repo status --short")
     if out.strip():
-        print("/repo not clean"); return 2
-    man = json.load(open(os.path.join(VERIF, "MANIFEST.json")))
-    props = [c["property_id"] for c in man["checks"]]
-    missed = []
-    for d in sorted(glob.glob(os.path.join(VERIF, "seeded", "*"))):
-        diff = os.path.join(d, "patch.diff")
-        if not os.path.exists(diff):
+        print("/repo not clean")
+        return 2
+    dirs = [d for d in sorted(glob.glob(os.path.join(VERIF, "seeded", "*"))) if os.path.exists(os.path.join(d, "patch.diff"))]
+    if only:
+        dirs = [d for d in dirs if any(o in os.path.basename(d) for o in only)]
+    missed, undecided = [], []
+    if in_place:
+        results = [one(d, True) for d in dirs]
+    else:
+        with ThreadPoolExecutor(max_workers=8) as ex:
+            results = list(ex.map(one, dirs))
+        shutil.rmtree(SCRATCH, ignore_errors=True)
+    for name, res, err in results:
+        if res is None:
+            print("%-50s does not apply: %s" % (name, err))
+            missed.append(name)
             continue
-        rc, out = sh("git -C /repo apply %s" % diff)
-        if rc != 0:
-            print("%-45s does not apply: %s" % (os.path.basename(d), out.strip()[:80])); continue
-        try:
-            det, und, rules = [], [], []
-            for p in props:
-                rcx, o = sh("./check %s --no-evidence" % p, VERIF)
-                if rcx == 1:
-                    det.append(p)
-                    rules += [l.strip().split(":")[0] for l in o.splitlines() if l.strip().startswith("%s rule" % p)]
-                elif rcx == 2:
-                    und.append(p)
-        finally:
-            sh("git -C /repo checkout -- .")
-        meta_p = os.path.join(d, "meta.json")
-        meta = json.load(open(meta_p)) if os.path.exists(meta_p) else {}
-        meta["detected_by"], meta["undecided"], meta["rules"] = det, und, sorted(set(rules))
-        json.dump(meta, open(meta_p, "w"), indent=1)
-        print("%-45s detected by %-14s %s%s" % (os.path.basename(d), ",".join(det) or "-", ",".join(sorted(set(rules))),
+        det, und, rules = res
+        print("%-50s detected by %-14s %s%s" % (name, ",".join(det) or "-", ",".join(rules),
                                               ("  UNDECIDED " + ",".join(und)) if und else ""))
         if not det:
-            missed.append(os.path.basename(d))
-    print("missed:", missed)
+            missed.append(name)
+        if und:
+            undecided.append(name)
+    print("seeds:", len(results), "missed:", missed, "with an undecided check:", undecided)
     return 1 if missed else 0
+
+
 if __name__ == "__main__":
     sys.exit(main())
